@@ -82,14 +82,18 @@ class _Result:
 class ExactBackend:
     """Duck-typed pytket backend returning exact frequencies (what get_counts/eval need)."""
 
-    def __init__(self):
-        self.results, self.calls = [], 0
+    def __init__(self, by_shots=False):
+        """by_shots: return frequency * n_shots (what a shot-based backend returns before
+        normalisation) instead of the frequency itself."""
+        self.results, self.calls, self.by_shots, self.seen_shots = [], 0, by_shots, []
 
     def process_circuits(self, circuits, n_shots=None, seed=None, **_):
         self.calls += 1
+        self.seen_shots.append(n_shots)
         base = len(self.results)
+        k = (n_shots or 1) if self.by_shots else 1
         for c in circuits:
-            self.results.append({k: v for k, v in simulate(c).items() if v > 1e-15})
+            self.results.append({key: v * k for key, v in simulate(c).items() if v > 1e-15})
         return list(range(base, len(self.results)))
 
     def get_result(self, handle):
